@@ -42,7 +42,7 @@ P("C08", "exploration", native=True,
   explanation="no verifier here models std::thread, so the run-time clauses are an exploration only: native runs of the four thread-spawning macros where every callback records the thread it runs on and then waits for all siblings of its step (they can only all arrive if they are alive at the same time), from main / named / unnamed calling threads. The deductive part is the code that decides WHICH threads exist: one builder per active branch numbered by branch index, threads only for a step with at least two active branches, every handle joined in branch order after all were spawned (generate_thread_builders_and_spawn_joiners, generate_step_tail)",
   unbounded="generate_thread_builders_and_spawn_joiners: None iff async / not spawn / fewer than two active branches; one `let __j{b} = __tb(b);` per ACTIVE branch numbered by BRANCH index; one `.join().unwrap()` per active branch in branch order; generate_step_tail: builders, then the step tuple that spawns, then the joins",
   bounded="8 (thorough 12) depth profiles x 4 macros x 3 calling-thread contexts, one OS schedule per run, 10 s gate timeout",
-  not_decided="all schedules; the thread-name helper exists only inside a quote! string and is exercised, not proved; nesting of spawn macros inside branches")
+  not_decided="all schedules; the thread-name helper exists only inside a quote! string and is exercised, not proved; nesting deeper than one spawn macro inside a spawned branch (3 programs)")
 P("C18", "fault_enumeration", native=True,
   explanation="Kani models panic as abort and no verifier here executes thread / task join errors, so this is fault enumeration: a panic is injected natively at every (branch, step) callback position of 7 (thorough 11) depth profiles under 8 macro kinds (sync, thread-spawning, async, tokio-spawning), inside catch_unwind and a 25 s watchdog. Deductive part: every spawned thread's handle is joined and unwrapped (`.join().unwrap()` per active branch, generate_thread_builders_and_spawn_joiners), which is what re-raises the panic on the caller",
   unbounded="one `.join().unwrap()` per active branch of a spawned step (token level)",
